@@ -541,6 +541,12 @@ func readGsub4_1(p *parser.Parser, subtablePos int64) (Subtable, error) {
 			if err != nil {
 				return nil, err
 			}
+			if componentCount == 0 {
+				return nil, &parser.InvalidFontError{
+					SubSystem: "sfnt/opentype/gtab",
+					Reason:    "invalid component count in GSUB 4.1",
+				}
+			}
 			componentGlyphIDs := make([]glyph.ID, componentCount-1)
 			for k := range componentGlyphIDs {
 				gid, err := p.ReadUint16()
